@@ -306,6 +306,14 @@ def walksOf (r : Sub.Req) (k : String × Path) : Bool :=
       | some full => qmatches full k.2
       | none => false)
 
+/-- how many further completed subscription paths of the request match the key: `processSubscription`
+queries the cache once per subscription path, so a leaf under overlapping paths is inserted once per
+matching path (the pending queue entry counts the duplicates) -/
+def extraOf (r : Sub.Req) (k : String × Path) : Nat :=
+  (r.subs.filter (fun sp => match Sub.completePath r sp with
+    | some full => qmatches full k.2
+    | none => false)).length - 1
+
 /-- a region = target and index path (origin included) of a subtree delete -/
 def wantsROf (r : Sub.Req) (g : String × Path) : Bool :=
   (Sub.regQueries r).any (fun q => compatible q (g.1 :: g.2))
@@ -318,6 +326,7 @@ def ltsReq (r : Sub.Req) (acl : Sub.Acl) : SubLTS.Req (String × Path) String (S
     single := if r.target = glob then none else some r.target
     wants := wantsOf r
     walks := walksOf r
+    extra := extraOf r
     wantsR := wantsROf r
     allow := acl.check
     aclOk := match acl with
